@@ -57,6 +57,12 @@ VerdictGal ==
 \* ... and every direction is carried by that same rotation (angles between directions are unchanged)
 \cup Viol("GALACTIC_IS_ROTATION", Deg9(Ev.v, lin))
 \cup Viol("GALACTIC_INVERSE", Deg9(Ev.w, Ev.u))
+\* galactic2equatorial on its own: the direction q it returns for (lon, lat) read as galactic coordinates is carried
+\* back onto that direction by the same linear map
+\cup Viol("GALACTIC_TO_EQUATORIAL_IS_ROTATION",
+          Deg9(<<Add(Add(Mul(Ev.q[1], G[1][1]), Mul(Ev.q[2], G[2][1])), Mul(Ev.q[3], G[3][1])),
+                 Add(Add(Mul(Ev.q[1], G[1][2]), Mul(Ev.q[2], G[2][2])), Mul(Ev.q[3], G[3][2])),
+                 Add(Add(Mul(Ev.q[1], G[1][3]), Mul(Ev.q[2], G[2][3])), Mul(Ev.q[3], G[3][3]))>>, Ev.u))
 \cup Viol("GALACTIC_COARSE", Deg5(Ev.v, lin) /\ Deg5(Ev.w, Ev.u))
 \cup Viol("GALACTIC_POLE", Ge(Ev.pole[3], Sub(One, Dec(1, 12))))
 \cup Viol("GALACTIC_RANGE", LonOK(Ev.lon) /\ LatOK(Ev.lat) /\ LonOK(Ev.lonq) /\ LatOK(Ev.latq))
